@@ -23,6 +23,7 @@ def parseEv (ws : List String) : Option (Ev × Nat) :=
   | ["cb", e, u, k] => do let e ← e.toNat?; let u ← u.toNat?; let k ← parseCb k; pure (.cb e u k, u)
   | ["incB", u, p] => do let u ← u.toNat?; let p ← p.toNat?; pure (.incB u p, u)
   | ["decB", u, p] => do let u ← u.toNat?; let p ← p.toNat?; pure (.decB u p, u)
+  | ["xferB", f, t] => do let f ← f.toNat?; let t ← t.toNat?; pure (.xferB f t, t)
   | ["resume", u] => do let u ← u.toNat?; pure (.resume u, u)
   | ["finish", e, u] => do let e ← e.toNat?; let u ← u.toNat?; pure (.finish e u, u)
   | ["terminate", u] => do let u ← u.toNat?; pure (.terminate u, u)
